@@ -89,6 +89,23 @@ def _symbol_vars(fn):
                     if n.target.id not in syms:
                         syms.add(n.target.id)
                         changed = True
+            # the same table built in one expression: {k: s for s in X.symbols.values() ...} / OrderedDict((k, s) for s in ...)
+            if isinstance(n, ast.Assign) and isinstance(n.targets[0], ast.Name):
+                comp, val = None, None
+                if isinstance(n.value, ast.DictComp):
+                    comp, val = n.value, n.value.value
+                elif isinstance(n.value, ast.Call) and (call_name(n.value) or "").split(".")[-1] in ("OrderedDict", "dict") and len(n.value.args) == 1 \
+                        and isinstance(n.value.args[0], (ast.GeneratorExp, ast.ListComp)) and isinstance(n.value.args[0].elt, ast.Tuple) \
+                        and len(n.value.args[0].elt.elts) == 2:
+                    comp, val = n.value.args[0], n.value.args[0].elt.elts[1]
+                if comp is not None and isinstance(val, ast.Name):
+                    for g in comp.generators:
+                        it = norm(g.iter)
+                        from_syms = it.endswith(".symbols.values()") or (isinstance(g.iter, ast.Call) and isinstance(g.iter.func, ast.Attribute)
+                                                                          and g.iter.func.attr == "values" and norm(g.iter.func.value) in dicts)
+                        if from_syms and is_name(g.target, val.id) and n.targets[0].id not in dicts:
+                            dicts.add(n.targets[0].id)
+                            changed = True
             if isinstance(n, ast.Assign) and isinstance(n.targets[0], ast.Subscript) and isinstance(n.value, ast.Name) and n.value.id in syms:
                 d = norm(n.targets[0].value)
                 if not d.endswith(".symbols") and d not in dicts:
